@@ -123,7 +123,18 @@ def r3_build_model(R) -> None:
         for x in ast.walk(n.ast):
             if is_call(x, 'exec'):
                 execs.append((n, x))
-    main = [(n, x) for (n, x) in execs if x.args and isinstance(x.args[0], ast.Name) and x.args[0].id == name]
+    from rules.common import exec_source
+    main = []
+    for (n, x) in execs:
+        if not x.args:
+            continue
+        src, faithful = exec_source(f, n.id, x.args[0])
+        # the same definition: the local itself, or the call that produced it
+        if (isinstance(src, ast.Name) and src.id == name) or src is call:
+            main.append((n, x))
+            R.check(faithful, q, f'exec-as-written:{text(x)[:40]}', 'the class is executed exactly as the text in CODE reads',
+                    f'`{text(x)[:50]}` runs the definition through a compile() that changes its meaning (optimize= / mode / flags): asserts, __debug__ blocks or '
+                    f'docstrings of the generated class differ from what CODE says', where=f.where(n))
     other = [(n, x) for (n, x) in execs if (n, x) not in main]
     if not R.require(q, len(main), f'exec({name}, ...)', fi=f.fi, pred=lambda x: is_call(x, 'exec')):
         return
@@ -215,22 +226,56 @@ def r4_converter(R) -> None:
     g = lc.generators[0]
     v = text(g.target)
     elt = lc.elt
-    okc = isinstance(elt, ast.Call) and len(elt.args) == 1 and not elt.keywords and text(elt.args[0]) == v and text(g.iter) == sym_param
-    R.check(okc, q, 'converter-once:' + text(elt)[:60], 'the converter is applied once per selected symbol, in symbol order', f'`{text(elt)[:60]} for {v} in {text(g.iter)[:30]}`', where=where)
+    # the element, split at its conditions: the default converter when none is given, the given one otherwise (a result of
+    # None is not converter output - what stands in for it is the implementation's own business)
+    from fsa.gated import leaves
+    dflt_name = None
+    okc = text(g.iter) == sym_param
+    okd = True
+    shown = text(elt)[:80]
+    for (facts, leaf) in leaves(canon(elt)):
+        fx = {(text(a_), tr) for (a_, tr) in facts}
+        call_ok = isinstance(leaf, ast.Call) and len(leaf.args) == 1 and not leaf.keywords and text(leaf.args[0]) == v
+        if ('converter is None', True) in fx:
+            if call_ok and isinstance(leaf.func, ast.Name) and leaf.func.id != 'converter':
+                dflt_name = leaf.func.id
+            elif call_ok and isinstance(leaf.func, ast.IfExp):
+                pass
+            elif '.code' in text(leaf) and '.equation.splitlines()' in text(leaf) and "'# '" in text(leaf):
+                dflt_name = dflt_name or '<read in place>'     # the default converter's own body (a helper read through)
+            else:
+                okd = False
+        elif ('converter is None', False) in fx:
+            declined = (f'converter({v}) is None', True) in fx
+            if not declined and not (call_ok and text(leaf.func) == 'converter'):
+                okc = False
+                shown = f'with a converter given, under {sorted(x for x in fx if x[0] != "converter is None")} the text inserted is `{text(leaf)[:50]}`, not converter({v})'
+        else:
+            # not split on `converter is None`: (<default> if converter is None else converter)(s)
+            fn_ = leaf.func if call_ok else None
+            if isinstance(fn_, ast.IfExp) and text(fn_.test) == 'converter is None' and text(fn_.orelse) == 'converter' and isinstance(fn_.body, ast.Name):
+                dflt_name = fn_.body.id
+            else:
+                okc = okc and call_ok
+                okd = False
+    R.check(okc, q, 'converter-once:' + shown[:60], 'the converter is applied once per selected symbol, in symbol order, and its output inserted as it is',
+            f'{shown} (for {v} in {text(g.iter)[:30]}): a converter output such as the empty string is replaced', where=where)
     if okc:
-        fn_ = elt.func
-        okd = isinstance(fn_, ast.IfExp) and text(fn_.test) == 'converter is None' and text(fn_.orelse) == 'converter' and isinstance(fn_.body, ast.Name)
-        R.check(okd, q, 'default-converter', 'the default converter is used exactly when none is given',
-                f'the function applied is `{text(fn_)[:80]}`, expected `<default> if converter is None else converter`', where=where)
-        if okd:
-            dcs = [x for x in ast.walk(f.fi.node) if isinstance(x, ast.FunctionDef) and x.name == fn_.body.id and x is not f.fi.node]
+        R.check(okd and dflt_name is not None, q, 'default-converter', 'the default converter is used exactly when none is given',
+                f'the function applied is `{shown}`, expected `<default> if converter is None else converter`', where=where)
+        if okd and dflt_name == '<read in place>':
+            R.ok(q, 'default converter = commented equation + code (read in place)')
+        elif okd and dflt_name is not None:
+            dcs = [x for x in ast.walk(f.fi.node) if isinstance(x, ast.FunctionDef) and x.name == dflt_name and x is not f.fi.node]
+            if not dcs:
+                dcs = [x for x in f.fi.module.tree.body if isinstance(x, ast.FunctionDef) and x.name == dflt_name]
             if len(dcs) == 1:
                 src = text(dcs[0])
                 R.check('.code' in src and '.equation.splitlines()' in src and "'# '" in src, q + '.<locals>.' + dcs[0].name, 'default-converter-shape',
                         'default converter = commented equation + code', 'the default converter does not emit `# equation` lines followed by the code',
                         where=f'{f.fi.module.relpath}:{dcs[0].lineno}')
             else:
-                raise Unsupported(f'{q}: default converter `{fn_.body.id}` is not a local function')
+                raise Unsupported(f'{q}: default converter `{dflt_name}` is not a function of the module')
     conds = set()
     for c in g.ifs:
         for (a_, tr) in nnf_atoms(c, True):
